@@ -711,7 +711,8 @@ def _run(ctx, rng, quick, binp, rb, ub, wd, proof_ok, res, broken):
                 scale_one = c.fit_spec() == 'o' or c.fit_spec() in ('z:1',)
                 if 'node-does-not-fill-canvas' in notes:
                     text = "--export-id with %s: canvas is sized from the node but the node is scaled by the document fit (%s)" % (c.fit_spec(), notes)
-                    if c.fit_spec().split(':')[0] in ('w', 'h', 'wh'):
+                    # also with -z: the document's rounded integer size can make the document scale differ from the node's own fit
+                    if c.fit_spec().split(':')[0] in ('w', 'h', 'wh', 'z'):
                         known_probe_hits.add('export-id-fit-scale')
                         ctx.known_or_violation('export-id-fit-scale', text, dict(rep, lib=png))
                     else:
